@@ -662,6 +662,10 @@ class RZILTransformer(Transformer):
         else:
             raise NotImplementedError(f"Assign type {assign.assign_type} not handled.")
         self.add_op(assign.src)
+        if assign.src.value_type != assign.dest.value_type:
+            # The operation was done in the promoted type.
+            # The result is converted back to the type of the destination.
+            assign.set_src(self.init_a_cast(assign.dest.value_type, assign.src))
 
     def assignment_expr(self, items):
         self.ext.set_token_meta_data("assignment_expr")
